@@ -583,6 +583,19 @@ pub fn run(out: &mut Out, tier: &str, seed: u64, prop: &str) {
                     ("double negation", Term::not(Term::not(t(a))), t(a)),
                     ("excluded middle", Term::or(t(a), Term::not(t(a))), Term::T),
                 ];
+                // Ordering::Equal exactly for the same function: a marker against markers that share its root
+                // test (its negation, and its conjunction / disjunction with another marker)
+                {
+                    let variants = [Term::not(t(a)), Term::and(t(a), t(b)), Term::or(t(a), t(b))];
+                    for v in &variants {
+                        let Some(y) = try_build(out, "C03", v) else { return };
+                        out.evaluations += 1;
+                        out.stat("c03.cmp_pairs");
+                        if (a.tree.cmp(&y) == std::cmp::Ordering::Equal) != (a.tree == y) {
+                            out.oracle_fail("C03", "cmp returns Equal for two markers that are not the same function (or not Equal for the same)", serde_json::json!({"left": a.term.line(), "right": v.line(), "left_dump": a.dump, "right_dump": dump(&y)}));
+                        }
+                    }
+                }
                 let (name, l, r) = &pairs[rng.below(pairs.len())];
                 out.evaluations += 1;
                 let (Some(x), Some(y)) = (try_build(out, "C03", l), try_build(out, "C03", r)) else { return };
@@ -784,6 +797,17 @@ pub fn run(out: &mut Out, tier: &str, seed: u64, prop: &str) {
                         shapes.push(Term::or(Term::S(key, 4, a.into()), Term::S(key, 2, a.into())));      // < a or > a
                         shapes.push(Term::and(Term::S(key, 1, a.into()), Term::S(key, 1, "b".into())));
                         shapes.push(Term::and(Term::S(key, 3, a.into()), Term::S(key, 5, "zz".into())));
+                    }
+                }
+                // values containing a quote character under every string operator (8 = contains, 9 = not contains:
+                // the literal is printed on the left), alone and inside and/or
+                for key in [1usize, 2, 12] {
+                    for val in ["it's", "O'Neil", "x\"y", "a'", "'", "\"", "x' in os_name or 'y"] {
+                        for op in 0..SOPS.len() {
+                            shapes.push(Term::S(key, op, val.into()));
+                            shapes.push(Term::and(Term::S(key, op, val.into()), Term::S(0, 0, "posix".into())));
+                            shapes.push(Term::or(Term::S(key, op, val.into()), Term::X(false, "dev".into())));
+                        }
                     }
                 }
                 for t in shapes {
